@@ -109,7 +109,9 @@ def strategy(shard):
         # (otherwise t+g and x+g round differently and the float premise is no longer null; DESIGN 2.6 / 9)
         cfg = draw(nonneg.config(fam, ut=(u, t), min_N=N, max_N=N, dyadic_g=(regime == "dyadic")))
         cfg["N"] = N
-        return {"cfg": cfg, "pop": [float(v) for v in pop], "regime": regime}
+        # an audit evaluates the same test object after every round: optionally look after k draws first
+        rounds = draw(st.sampled_from([None, None, [draw(st.integers(1, N - 1))]]))
+        return {"cfg": cfg, "pop": [float(v) for v in pop], "regime": regime, "rounds": rounds}
 
     @st.composite
     def iid(draw):
@@ -190,17 +192,24 @@ def evaluate(case, out):
         boundary = sum(Fraction(v) for v in pop) == Fraction(t) * N
         out.cls("mean==t" if boundary else "mean<t", case.get("regime", "dyadic"))
         w = Fraction(1, total)
+        rounds = case.get("rounds") or []
+        if rounds:
+            out.cls("evaluated-in-rounds")
         for arr in er.multiset_permutations(pop):
+            m = 1.0
             try:
-                p, h = test.test(np.array(arr, dtype=float))
+                for k in list(rounds) + [N]:
+                    p, h = test.test(np.array(arr[:k], dtype=float))
+                    h = np.asarray(h, dtype=float)
+                    pm = float(p)
+                    if h.size:
+                        hm = np.nanmin(h) if not np.all(np.isnan(h)) else 1.0
+                        pm = hm if (math.isnan(pm) or hm < pm) else pm
+                    if not math.isnan(pm):
+                        m = min(m, pm)
             except Exception as e:  # noqa
                 out.lib_exception("test", e)
                 return
-            h = np.asarray(h, dtype=float)
-            m = float(p)
-            if h.size:
-                hm = np.nanmin(h) if not np.all(np.isnan(h)) else 1.0
-                m = hm if (math.isnan(m) or hm < m) else m
             ms.append((float(m), w))
         out.enumerated = total
         n_paths = total
